@@ -716,4 +716,41 @@ Section Jumps.
           unfold var_below in Hv. destruct (v_id v); [exact I | lia].
         * cbn; lia.
   Qed.
+
+  (* ---- counting jumps: `if (--v) goto l`, `if (--v > 0) goto l`, and their `unless` forms ---- *)
+  Definition count_taken (op : binop) (n' : Z) : bool := match op with Gt => 0 <? n' | _ => negb (n' =? 0) end.
+
+  Theorem count_jump_sound k v op l jt s code s' m n :
+    lower_count_jump avail rty lty time mask k v op l jt s = Ok (code, s') ->
+    label_ok l (g s) ->
+    eval_s (te s) m (var_expr v) = Ok (VInt n) ->
+    forall rest cmp, run_fwd (code ++ rest) Exec m cmp =
+      run_fwd rest (if xorb (count_taken op (wrap32 (n - 1))) (is_unless k) then Seek l jt else Exec)
+              (update m (v_id v) (VInt (wrap32 (n - 1)))) cmp.
+  Proof.
+    unfold lower_count_jump. intros Hl Hlab Hv rest cmp.
+    set (m' := update m (v_id v) (VInt (wrap32 (n - 1)))).
+    set (taken := xorb (count_taken op (wrap32 (n - 1))) (is_unless k)).
+    destruct (negb (avail (KCountJmp op))); [discriminate|].
+    unfold var_arg in Hl. destruct (negb (ty_eqb (var_read_ty rty lty (te s) v) TInt)) eqn:Ety; [discriminate|].
+    assert (Hread : read_arg m (TVar (var_read_ty rty lty (te s) v) (v_id v)) = Ok (VInt n)).
+    { rewrite (read_dst T libm rty lty diff). exact Hv. }
+    destruct k; cbn [is_unless] in taken.
+    - unfold instr, ret in Hl. inversion Hl; subst code s'.
+      cbn [app LowerSem.run_fwd LowerSem.exec_step]. rewrite Hread. cbn [obind LowerSem.write_arg].
+      unfold taken, count_taken. rewrite Bool.xorb_false_r. fold m'.
+      destruct op; try (destruct (wrap32 (n - 1) =? 0); reflexivity). destruct (0 <? wrap32 (n - 1)); reflexivity.
+    - unfold gen_label in Hl. cbn [fst snd] in Hl.
+      apply seq_ok in Hl. destruct Hl as [c1 [s1 [r1 [H1 [Hl Hc1]]]]].
+      apply seq_ok in Hl. destruct Hl as [c2 [s2 [c3 [H2' [H3 Hc2]]]]].
+      unfold instr, ret in H1. inversion H1; subst c1 s1. clear H1.
+      unfold need, instr, ret in H2'. destruct (avail KJmp); [|discriminate]. inversion H2'; subst c2 s2. clear H2'.
+      unfold ret in H3. inversion H3; subst c3 s'. clear H3. subst code r1.
+      cbn [app LowerSem.run_fwd LowerSem.exec_step]. rewrite Hread. cbn [obind LowerSem.write_arg]. fold m'.
+      unfold taken, count_taken. rewrite Bool.xorb_true_r.
+      assert (Hskip : label_eqb l (LGen GK_SKIP (g s)) = false) by (apply label_ok_neq; exact Hlab).
+      destruct op;
+        try (destruct (wrap32 (n - 1) =? 0); cbn [negb LowerSem.run_fwd LowerSem.exec_step]; rewrite ?label_eqb_refl, ?Hskip; reflexivity).
+      destruct (0 <? wrap32 (n - 1)); cbn [negb LowerSem.run_fwd LowerSem.exec_step]; rewrite ?label_eqb_refl, ?Hskip; reflexivity.
+  Qed.
 End Jumps.
